@@ -155,6 +155,40 @@ func (s *ccSC) Bytes() []byte                  { s.mem.mu.Lock(); defer s.mem.mu
 type ccDF struct {
 	d   *deferred.DeferredCarWriter
 	buf *lockedBuf
+	// OnPut listeners registered before the concurrent phase: one persistent, one one-shot
+	cbAll, cbOnce atomic.Int64
+}
+
+// extraCheck: every Put that was not refused fires the persistent listener exactly once and the
+// one-shot listener fires at most once over the life of the writer.
+func (s *ccDF) extraCheck(evs []ccEvent) string {
+	inv, ok := 0, 0
+	for _, e := range evs {
+		if e.Op == "put" && e.Ev == "inv" {
+			inv++
+		}
+		if e.Op == "put" && e.Ev == "resp" && e.Res == "ok" {
+			ok++
+		}
+	}
+	all, once := int(s.cbAll.Load()), int(s.cbOnce.Load())
+	if once > 1 {
+		return fmt.Sprintf("a one-shot OnPut listener fired %d times", once)
+	}
+	if all < ok || all > inv {
+		return fmt.Sprintf("the OnPut listener fired %d times for %d Put calls of which %d succeeded", all, inv, ok)
+	}
+	if ok > 0 && once != 1 {
+		return fmt.Sprintf("the one-shot OnPut listener fired %d times although %d Puts succeeded", once, ok)
+	}
+	return ""
+}
+
+func storeExtraCheck(st ccStore, evs []ccEvent) string {
+	if x, ok := st.(interface{ extraCheck([]ccEvent) string }); ok {
+		return x.extraCheck(evs)
+	}
+	return ""
 }
 
 type lockedBuf struct {
@@ -191,7 +225,10 @@ func newCCStore(kind, dir string) (ccStore, error) {
 		return &ccSC{sc, m}, nil
 	default:
 		lb := &lockedBuf{}
-		return &ccDF{deferred.NewDeferredCarWriterForStream(lb, roots), lb}, nil
+		df := &ccDF{d: deferred.NewDeferredCarWriterForStream(lb, roots), buf: lb}
+		df.d.OnPut(func(int) { df.cbAll.Add(1) }, false)
+		df.d.OnPut(func(int) { df.cbOnce.Add(1) }, true)
+		return df, nil
 	}
 }
 
@@ -421,6 +458,9 @@ func runConcStress(args []string) int {
 			}
 			if m := finalFileCheck(kind, st.Bytes(), acked, attempted); m != "" {
 				rep.violate("conc/final-file/"+kind, m, map[string]any{"family": "conc", "kind": kind, "seed": seed, "round": round, "goroutines": G})
+			}
+			if m := storeExtraCheck(st, rec.evs); m != "" {
+				rep.violate("conc/listeners/"+kind, m, map[string]any{"family": "conc", "kind": kind, "seed": seed, "round": round, "goroutines": G})
 			}
 			for _, e := range rec.evs {
 				e.Run = run
